@@ -467,6 +467,8 @@ func VerifGzWrFail() {
 	sink := &vgFailSink{failAt: verifrt.Concretize(k), err: fault, recover: verifrt.Pick("recover", 2) == 1}
 	w, _ := NewWriterLevel(sink, level)
 	w.Name = "n"
+	w.Comment = "c"
+	w.Extra = []byte{1}
 	for i := 0; i < K; i++ {
 		op := int(verifrt.U8())
 		verifrt.Assume(op < 3)
